@@ -517,8 +517,13 @@ impl ScionPath {
                     })
                     .collect();
 
+                // One latency and one bandwidth value per link (total_interfaces - 1), leaving out
+                // the last interface which is the destination. This is what `try_from_rpc` reads.
+                let link_count = if_meta.len().saturating_sub(1);
+
                 rpc_path.latency = if_meta
                     .iter()
+                    .take(link_count)
                     .map(|latency| {
                         match latency.latency {
                             Some(latency) => {
@@ -542,6 +547,7 @@ impl ScionPath {
 
                 rpc_path.bandwidth = if_meta
                     .iter()
+                    .take(link_count)
                     .map(|meta| meta.bandwidth.unwrap_or(0))
                     .collect();
 
@@ -555,12 +561,29 @@ impl ScionPath {
                     })
                     .collect();
 
+                // One link type per inter-AS link, stored at the even (egress) interfaces.
                 rpc_path.link_type = if_meta
                     .iter()
+                    .step_by(2)
                     .map(|meta| {
                         match &meta.link {
                             Some(LinkMeta::Egress(link_type)) => link_type.to_i32(),
                             _ => LinkType::Unset.to_i32(),
+                        }
+                    })
+                    .collect();
+
+                // One internal hop count per intra-AS link, stored at the odd (ingress) interfaces
+                // except the last one, which is the destination.
+                rpc_path.internal_hops = if_meta
+                    .iter()
+                    .skip(1)
+                    .step_by(2)
+                    .take((if_meta.len() / 2).saturating_sub(1))
+                    .map(|meta| {
+                        match &meta.link {
+                            Some(LinkMeta::Ingress { internal_hop_count }) => *internal_hop_count,
+                            _ => 0,
                         }
                     })
                     .collect();
